@@ -1081,7 +1081,7 @@ def register_requirement_closure(reg):
         bx, bz = PObj("Distribution", tag="binding of x at the statement"), PObj("Distribution", tag="binding of z at the statement")
         by = PObj("Constant", tag="binding of y at the statement (not random)")
         bc0, bc1 = PObj("Distribution", tag="binding of cell 0"), PObj("Constant", tag="binding of cell 1 (not random)")
-        ns = PDict([("x", PObj("Rebound", tag="x rebound after the statement")), ("y", by), ("unrelated", PObj("Other", tag="unrelated global")), ("z", bz)])
+        ns = PDict([("x", PObj("Rebound", tag="x rebound after the statement")), ("y", PObj("Rebound", tag="y rebound after the statement")), ("unrelated", PObj("Other", tag="unrelated global")), ("z", bz)])
         cells = []
         for i, b in enumerate((bc0, bc1)):
             c = PObj("Cell", tag=f"cell{i}")
@@ -1150,7 +1150,10 @@ def register_requirement_closure(reg):
         if len(evs) == 1:
             ns_then, cells_then = evs[0][1], evs[0][2]
             want_z = v["_sz"] if v["_z_sampled"] else h["bz"]
-            eng.check(f"{name}#ensures.captured_global_names_hold_the_sampled_values_of_the_bindings_at_the_statement", ns_then["x"] is v["_sx"] and ns_then["y"] is h["by"] and ns_then["z"] is want_z)
+            eng.check(f"{name}#ensures.captured_random_names_hold_the_sampled_values_of_the_bindings_at_the_statement", ns_then["x"] is v["_sx"] and ns_then["z"] is want_z)
+            if h["is_require"]:
+                # `require`: every captured name, random or not, reads its value at the time of the statement
+                eng.check(f"{name}#ensures.require_rebinds_every_captured_name_to_its_binding_at_the_statement", ns_then["y"] is h["by"])
             eng.check(f"{name}#ensures.names_the_requirement_does_not_use_are_untouched", ns_then["unrelated"] is dict(h["before_ns"])["unrelated"])
             eng.check(f"{name}#ensures.closure_cells_hold_the_sampled_values_of_their_bindings", cells_then[0] is v["_sc0"] and cells_then[1] is h["cells"][1][1])
             i = log.index(evs[0])
@@ -1211,8 +1214,8 @@ def replay_requirement_closure(inputs, clause):
     if "frame" in clause or clause == "*":
         after = {k: ns[k] for k in before}
         changed = [k for k in before if after[k] is not before[k]]
-        if changed and "frame" in clause:
+        if changed and ("namespace" in clause or clause == "frame"):
             return f"after generate() the module namespace still holds the sampled values: " + ", ".join(f"{k} = {after[k]!r} (was {before[k]!r})" for k in changed)
-        if cell.cell_contents is not cell_before and "frame" in clause:
+        if cell.cell_contents is not cell_before and "cells" in clause:
             return f"after generate() the closure cell of g holds {cell.cell_contents!r} (was {cell_before!r})"
     return None
